@@ -1,6 +1,11 @@
 package hist
 
-import "fmt"
+import (
+	"fmt"
+	"math"
+
+	art "github.com/Clement-Jean/go-art"
+)
 
 // UniverseDef is a lazily built universe.
 type UniverseDef struct {
@@ -56,6 +61,9 @@ func Registry(prop, tier string) []UniverseDef {
 	if prop == "C13" {
 		return C13Registry(tier)
 	}
+	if prop == "C17" {
+		return C17Registry(tier)
+	}
 	if prop != "C04" {
 		// a few compound universes take part in every tree-level property
 		keep := map[string]bool{"compound[u64,u64,str]/LONG": true, "compound[u64,u64,str]/VALS": true, "compound[u8,str]/PRODUCT": true,
@@ -106,4 +114,55 @@ func ConfigFor(prop, tier string) Config {
 		c.MaxStates = 3000000
 	}
 	return c
+}
+
+// C17Registry: small closures of every kind supply the states whose operation cycles are pumped.
+func C17Registry(tier string) []UniverseDef {
+	var out []UniverseDef
+	P := func(n int) string { return rep('p', n) }
+	alpha := AlphaSpec{Name: "HEAP4", Free: []string{"a", "ab", P(12) + "x", P(12) + "y"}, Probes: []string{P(12), "b"}, NoAutoP: true, Prefixes: []string{"a", P(12)}}
+	fan := FanUniverse(FanSpec{Name: "HEAPFAN48@13", Hold: 13, Extra: 4, Present: 2, Absent: 1})
+	fan.NoAutoP = true
+	fan256 := FanUniverse(FanSpec{Name: "HEAPFAN256@38", Hold: 38, Extra: 11, Present: 1, Absent: 1})
+	fan256.NoAutoP = true
+	for _, kt := range []string{"string", "[]byte"} {
+		kt := kt
+		out = append(out, UniverseDef{Name: "alpha[" + kt + "]/HEAP4", Build: func() *Universe { return NewAlphaUniverse(alpha, kt) }})
+	}
+	out = append(out, UniverseDef{Name: "alpha[string]/HEAPFAN48@13", Build: func() *Universe { return NewAlphaUniverse(fan, "string") }})
+	if tier == "thorough" {
+		out = append(out, UniverseDef{Name: "alpha[string]/HEAPFAN256@38", Build: func() *Universe { return NewAlphaUniverse(fan256, "string") }})
+	}
+	und := Collators()[0]
+	coll := CollSpec{Name: "HEAP4", Prefix: true, Free: []string{"a", "A", "ab", P(16) + "x"}, Probes: []string{"b"}, Prefixes: []string{"a"}}
+	for _, kt := range []string{"string", "[]byte", "[]rune"} {
+		kt := kt
+		out = append(out, UniverseDef{Name: "collation[" + kt + ",und]/HEAP4", Build: func() *Universe { return NewCollUniverse(coll, und, kt, false) }})
+	}
+	sv := Collators()[1]
+	out = append(out, UniverseDef{Name: "collation[string,sv]/HEAP4", Build: func() *Universe { return NewCollUniverse(coll, sv, "string", true) }})
+	uops := intOps[uint64](func(k uint64) []byte { _, b := art.UnsignedBinaryKey[uint64]{}.Transform(k); return b })
+	out = append(out, UniverseDef{Name: "unsigned[uint64]/HEAP4", Build: func() *Universe {
+		return NewNumUniverse("unsigned", "uint64", func() art.Tree[uint64, int] { return art.NewUnsignedBinaryTree[uint64, int]() },
+			NumSpec[uint64]{Name: "HEAP4", Free: []uint64{0, 1, 1 << 40, math.MaxUint64}, Probes: []uint64{2}}, uops)
+	}})
+	iops := intOps[int16](func(k int16) []byte { _, b := art.SignedBinaryKey[int16]{}.Transform(k); return b })
+	out = append(out, UniverseDef{Name: "signed[int16]/HEAP4", Build: func() *Universe {
+		return NewNumUniverse("signed", "int16", func() art.Tree[int16, int] { return art.NewSignedBinaryTree[int16, int]() },
+			NumSpec[int16]{Name: "HEAP4", Free: []int16{-256, -1, 0, 255}, Probes: []int16{1}}, iops)
+	}})
+	fops := floatOps[float64](func(k float64) []byte { _, b := art.FloatBinaryKey[float64]{}.Transform(k); return b })
+	out = append(out, UniverseDef{Name: "float[float64]/HEAP4", Build: func() *Universe {
+		return NewNumUniverse("float", "float64", func() art.Tree[float64, int] { return art.NewFloatBinaryTree[float64, int]() },
+			NumSpec[float64]{Name: "HEAP4", Free: []float64{math.NaN(), -1.5, 0, math.Inf(1)}, Probes: []float64{1}}, fops)
+	}})
+	out = append(out, UniverseDef{Name: "unsigned[uint8]/HEAPFAN16@4", Build: func() *Universe {
+		return pU8("HEAPFAN16@4", FanSpec{Hold: 4, Extra: 12, Present: 2, Absent: 1})
+	}})
+	long := Schema{Fields: []FieldType{FU64, FU64}, Str: true}
+	mk := func(a, b uint64, s string) Tuple { return Tuple{N: []Num{{T: FU64, U: a}, {T: FU64, U: b}}, S: s} }
+	out = append(out, UniverseDef{Name: "compound[u64,u64,str]/HEAP4", Build: func() *Universe {
+		return NewCompoundUniverse("HEAP4", long, []Tuple{mk(7, 0x0101010101010100, "x"), mk(7, 0x0101010101010101, "x"), mk(8, 0, ""), mk(7, 0x0101010101010100, "")}, []Tuple{mk(6, 0, "")}, 1)
+	}})
+	return out
 }
